@@ -54,7 +54,8 @@ REQUIRED = {"all": ["runs", "completed_runs", "steps", "accepted_steps", "reject
                     "second_runs_on_same_machine", "g_beyond_709_steps", "runs_beyond_30_iterations",
                     "runs_converged_before_the_first_step", "ranges_not_aligned_to_the_partition", "proposals_identical_to_the_current_sequence",
                     "runs_under_a_jumping_wall_clock", "other_machine_set_up_on_the_same_directory",
-                    "runs_on_chains_longer_than_30", "runs_with_flatness_criterion_one", "machines_from_a_reinitialised_front_end"]}
+                    "runs_on_chains_longer_than_30", "runs_with_flatness_criterion_one", "machines_from_a_reinitialised_front_end",
+                    "runs_with_50_or_100_bins", "runs_with_odd_check_periods", "runs_over_unreachable_bins"]}
 NRUNS = {"quick": 160, "thorough": 1200}
 STEP_BUDGET = {"quick": 3000, "thorough": 30000}
 WATCHDOG = {"quick": 1200, "thorough": 6 * 3600}
@@ -178,6 +179,26 @@ def cases(tier, seed):
             yield {"s": gen.spell(rng, pat2), "M": rng.choice([2, 4]), "a": 0, "b": 0, "flatchk": rng.choice([20, 50]), "flatcrit": 0.0,
                    "conv": "e0.3", "frozen": [], "hostile": False, "o": rng.randrange(1 << 30), "twice": False, "fullrange": True, "long": True}
             continue
+        if i % 16 == 1 and i % 32 == 17:
+            # many fine bins with a partial range whose lower edge is not a binary fraction (0.29, 0.57, 0.58 ...)
+            Mf = rng.choice([50, 100])
+            a_f = rng.choice([29, 57, 58, 7, 14, 28]) * Mf // 100
+            b_f = min(Mf, a_f + rng.randint(2, 6))
+            yield {"s": seq, "M": Mf, "a": a_f, "b": b_f, "flatchk": rng.choice([7, 50]), "flatcrit": 0.0, "conv": "e0.6",
+                   "frozen": [], "hostile": False, "o": rng.randrange(1 << 30), "twice": False, "fine": True}
+            continue
+        if i % 16 == 6:
+            # check periods that are not multiples of anything the sampler derives from them (progress dots every period // 20 steps)
+            yield {"s": seq, "M": rng.choice([2, 4]), "a": 0, "b": 0, "flatchk": rng.choice([41, 64, 128, 150, 250, 256, 333]), "flatcrit": 0.0,
+                   "conv": "e0.3", "frozen": [], "hostile": False, "o": rng.randrange(1 << 30), "twice": False, "fullrange": True, "odd_period": True}
+            continue
+        if i % 16 == 14:
+            # a range containing bins that no arrangement of the chain falls into, checked often: the run never becomes flat
+            pat8 = [1, 1, -1, 0, 0, 0, 0, 0]
+            rng.shuffle(pat8)
+            yield {"s": gen.spell_plain(pat8), "M": 10, "a": 0, "b": 10, "flatchk": rng.choice([3, 5]), "flatcrit": rng.choice([0.2, 0.5]),
+                   "conv": "e0.6", "frozen": [], "hostile": False, "o": rng.randrange(1 << 30), "twice": False, "unreachable": True}
+            continue
         if i % 16 == 15:
             # the flatness criterion at its upper end: every bin must hold at least the mean, i.e. all bins equal
             yield {"s": seq, "M": 2, "a": 0, "b": 2, "flatchk": rng.choice([2, 4, 10]), "flatcrit": rng.choice([1, 1.0]), "conv": "e0.6",
@@ -192,7 +213,7 @@ def cases(tier, seed):
                "flatchk": rng.choice([1, 7, 50, 200] if easy else [7, 50, 200, 1000]),
                "flatcrit": 0.0 if i % 4 == 0 else rng.choice([0.0, 0.2, 0.5, 0.8]),
                "conv": rng.choice(["e0.6", "e0.6", "e0.3", "1.2", "e0.1"]) if easy else rng.choice(["e0.6", "e0.3"]),
-               "frozen": [] if i % 5 else [0, 1], "hostile": i % 4 == 1, "o": rng.randrange(1 << 30)}
+               "frozen": [] if i % 5 else [0, 1], "hostile": i % 8 in (2, 4), "o": rng.randrange(1 << 30)}
 
 
 def nonaligned_range(rng):
@@ -582,6 +603,9 @@ def judge(case, rep, S):
         rep.cnt("runs_on_chains_longer_than_30")
     if case.get("crit_one"):
         rep.cnt("runs_with_flatness_criterion_one")
+    for key_, cnt_ in (("fine", "runs_with_50_or_100_bins"), ("odd_period", "runs_with_odd_check_periods"), ("unreachable", "runs_over_unreachable_bins")):
+        if case.get(key_):
+            rep.cnt(cnt_)
     if (a, b) != (0, Mb):
         rep.cnt("partial_range_runs")
     result = None
